@@ -248,7 +248,7 @@ impl Transaction {
             return Err(Error::from(ErrorKind::InvalidInput));
         }
 
-        let available_balance = wallet.get_available_balance();
+        let available_balance = wallet.get_spendable_balance(latest_block_id, genesis_period);
 
         if with_fee > available_balance {
             with_fee = 0;
